@@ -380,6 +380,16 @@ def check_network(label, net, tier, seed, want):
                 V("C01", f"IDX-macro: IDX_{sp.alias} is {v}, species position {i}", backend=bname)
         if mac.get("__redefined__") and "C01" in want:
             V("C01", f"IDX-redefined: {mac['__redefined__']}", backend=bname)
+        # ---- rate slots (C03): every k[i] written by EvalRates addresses a slot of the array, each slot is written
+        if "C03" in want or "C01" in want:
+            tg = [int(i) for i, _ in statements(strip_comments(R.rates_text), r"\bk\[(\d+)\]")]
+            nre = len(R.reactions)
+            bad = sorted({i for i in tg if not (0 <= i < nre)})
+            if bad:
+                V("C03" if "C03" in want else "C01", f"rate-subscript-out-of-range: EvalRates writes k{bad[:4]} but k has {nre} elements", backend=bname)
+            miss = sorted(set(range(nre)) - set(tg))
+            if miss and tg:
+                V("C03" if "C03" in want else "C01", f"rate-slot-never-written: k{miss[:4]} is not assigned by EvalRates", backend=bname)
         # ---- rate overrides (C13): k[i] of a reaction carrying a modified index is the user's text, every other k[i] the reaction's own rate
         if "C13" in want and (net.rate_modifier or {}):
             norm = lambda t: re.sub(r"\s+", "", t)
